@@ -136,7 +136,7 @@ func runPlan(cd *common.Codec, f model.Format, sc *Scenario, data []byte, refs [
 	_ = vis
 	var dec common.Decoder
 	var rd *simkit.Reader
-	buf := append([]byte{}, data...) // the decoder may keep this slice
+	buf := simkit.Exact(data) // the decoder may keep this slice
 	mk := func() {
 		if sc.Ctor == "bytes" {
 			if sc.NoRef {
